@@ -247,7 +247,12 @@ fn sorted_strs(v: &Value) -> Vec<String> {
     x
 }
 
+/// a = observed (or predicted) answer, b = expectation; where the generated 502 is expected any answer with status
+/// 502 is accepted (AnsEq in ProxyMsg.tla: the property does not describe the error page)
 fn ans_eq(a: &Value, b: &Value) -> bool {
+    if b["kind"] == "502" {
+        return a["code"] == 502 && (a["kind"] == "502" || a["kind"] == "resp");
+    }
     a["kind"] == b["kind"] && a["code"] == b["code"] && a["body"] == b["body"] && sorted_strs(&a["hdrs"]) == sorted_strs(&b["hdrs"])
 }
 
@@ -581,7 +586,13 @@ fn run_case(c: &Case, state: &Arc<AppState>) -> Obs {
 
     // escalating waits: within timeout + slack it is on time; later it is late; after the last wait it is a hang
     let first = Duration::from_millis(timeout_ms + SLACK_MS);
-    let extra: Vec<u64> = if HANGS_CONFIRMED.load(Ordering::SeqCst) >= 4 { vec![2000] } else { vec![2000, 4000, 8000] };
+    let extra: Vec<u64> = if handler {
+        vec![2000, 4000, 8000, 20000] // the handler's own timeout is not ours to know: a long last wait before "hang"
+    } else if HANGS_CONFIRMED.load(Ordering::SeqCst) >= 4 {
+        vec![2000]
+    } else {
+        vec![2000, 4000, 8000]
+    };
     let mut res = rx.recv_timeout(first);
     let mut i = 0;
     while matches!(res, Err(RecvTimeoutError::Timeout)) && i < extra.len() {
@@ -696,9 +707,12 @@ fn judge(j: &ReplayJob, o: &Obs) -> Value {
     let v = &j.v;
     let ans_ok = ans_eq(&o.got, &v["exp"]);
     let fwd_ok = !j.case.connected || j.case.noread || (o.seenok && fwd_eq(&o.seen, &v["fwd"]));
-    let ok = ans_ok && fwd_ok && !o.late;
+    // lateness gates for proxy_request (the harness configures its timeout); proxy_handler's own timeout value is
+    // not part of the property: there only a hang gates, lateness is reported as drift
+    let late_gates = o.late && (j.case.entry == "core" || o.got["kind"] == "hang");
+    let ok = ans_ok && fwd_ok && !late_gates;
     let mut dev = Value::Null;
-    if !ok && fwd_ok && (!o.late || o.got["kind"] == "hang") {
+    if !ok && fwd_ok && (!late_gates || o.got["kind"] == "hang") {
         if let Some(alt) = v["alt"].as_object() {
             let mut names: Vec<&String> = alt.keys().collect();
             names.sort();
@@ -709,7 +723,14 @@ fn judge(j: &ReplayJob, o: &Obs) -> Value {
             }
         }
     }
-    json!({"id": v["id"], "ok": ok, "ans_ok": ans_ok, "fwd_ok": fwd_ok, "late": o.late, "devs": dev,
+    let mut drift: Vec<&str> = vec![];
+    if o.late && !late_gates {
+        drift.push("proxy_handler answered later than 5 s + slack");
+    }
+    if v["exp"]["kind"] == "502" && o.got["kind"] == "resp" && ans_ok {
+        drift.push("the generated 502 answer is not today's page (body / headers differ)");
+    }
+    json!({"id": v["id"], "ok": ok, "ans_ok": ans_ok, "fwd_ok": fwd_ok, "late": late_gates, "devs": dev, "drift": drift,
            "nontrivial": v["exp"]["kind"] == "resp",
            "trace": trace_record(&v["id"], &j.case, &j.segs, &j.term, o)})
 }
